@@ -259,6 +259,16 @@ def check(ctx):
     body = [norm(s) for s in lp[0].body] if lp else []
     ctx.inst('R6', inc, 'range-advance', body == ["anchor_id, distance = struct.unpack('<Bf', raw_data[:5])", 'decoded_data[anchor_id] = distance', 'raw_data = raw_data[5:]'],
              'record -> (anchor id, distance), stored by id, then advance 5 bytes; body %s' % body)
+    # the report is decoded into a dictionary of its own: what it lists is exactly what this packet carried (a dictionary kept on the
+    # object still shows the anchors of earlier reports, and every delivered packet shares it)
+    tgtd = [n for n in g.nodes if n.kind == 'stmt' and isinstance(n.ast, ast.Assign) and isinstance(n.ast.targets[0], ast.Subscript) and
+            norm(n.ast.targets[0].slice) == 'anchor_id']
+    okfr = len(tgtd) == 1 and isinstance(tgtd[0].ast.targets[0].value, ast.Name)
+    if okfr:
+        dsd = g.reaching_defs(tgtd[0], tgtd[0].ast.targets[0].value.id)
+        dvd = [g.def_value(d, tgtd[0].ast.targets[0].value.id) for d in dsd]
+        okfr = len(dsd) == 1 and dvd[0] is not None and norm(dvd[0]) in ('{}', 'dict()') and fact_key('pk_type == self.RANGE_STREAM_REPORT', True) in g.fact_keys_at(dsd[0])
+    ctx.inst('R6', inc, 'range-report-in-fresh-dict', okfr, 'distances are stored in a dictionary created for this report ({} in the range branch)')
     st = {norm(s.targets[0]): norm(s.value) for s in walk_own(inc.node) if isinstance(s, ast.Assign)}
     short = [n for n in g.nodes if n.kind == 'return' for k in g.fact_keys_at(n) if k[0].endswith('< len(packet.data)') and not k[1]]
     ks = sorted({k[0] for n in short for k in g.fact_keys_at(n) if k[0].endswith('< len(packet.data)') and not k[1]})
@@ -378,6 +388,14 @@ def trajectory_rules(ctx, rule='R4'):
             if isinstance(d, dict):
                 tbl.update(d)
     ctx.inst(rule, et, 'type-table', tbl == {0: 0, 1: 1, 3: 2, 7: 3}, 'element length -> type code table %s, expected {0:0, 1:1, 3:2, 7:3}' % tbl)
+    # overflow raises out of write_data: the packing loop is not wrapped in a handler that turns struct.error (or anything broader) into a
+    # quiet return
+    wd = m.func(TRJ, 'TrajectoryMemory.write_data')
+    packs_ = [c for c in walk_own(wd.node) if method_call(c, 'pack')]
+    swallowed = [norm(h.type)[:30] if h.type is not None else 'bare except' for t in walk_own(wd.node) if isinstance(t, ast.Try)
+                 if any(c is x for c in packs_ for s_ in t.body for x in walk_own(s_)) for h in t.handlers
+                 if not any(isinstance(x, ast.Raise) and x.exc is None for s_ in h.body for x in walk_own(s_))]
+    ctx.inst(rule, wd, 'overflow-propagates', bool(packs_) and not swallowed, 'element.pack() raises struct.error for a coordinate outside int16; handlers that swallow it: %s' % swallowed)
     # the encoded element is a one-shot map object: it is run through once, by the packing loop (a debug list(...) before it leaves the
     # segment without control points)
     one_shot_rules(ctx, rule, [TRJ])
